@@ -310,7 +310,11 @@ class SInt:
     """a non-negative integer (z3 Int term or python int) with a static upper bound `cap` (what `a.size`, `onp.sum(mask)`
     return when the length is symbolic)"""
     __array_ufunc__ = None
-    __hash__ = None
+
+    def __hash__(self):
+        """sizes used as dictionary keys: hash of the VALUE (equal to the hash of the python int); a symbolic size forks the
+        exploration over its values first, so that hashing and the following == are exact"""
+        return hash(int(self))
 
     def __init__(self, z, cap):
         self.z, self.cap = z, int(cap)
@@ -654,7 +658,7 @@ class PA:
                 d = r.data[(slice(None),) + rest]
                 return PA(d, r.kind, (r.ext[0],) + (None,) * (d.ndim - 1), r.ecap)
             raise Unsupported('indexing with key %r' % (key,))
-        if isinstance(key, slice) and self.ndim == 1 and not self.dense:
+        if isinstance(key, slice) and self.ndim == 1 and (not self.dense or isinstance(key.start, SInt) or isinstance(key.stop, SInt)):
             return _slice_get(self, key)
         key = _concrete_key(key)
         self._need_dense('basic/fancy indexing')
@@ -1168,6 +1172,32 @@ def _sort(a):
     return PA(out, 'i', a.ext, a.ecap)
 
 
+def _argsort(a, kind=None):
+    """argsort of a dense 1-d boolean / integer array as the STABLE permutation. numpy's default quicksort is an introsort
+    that finishes partitions of <= 16 entries by insertion sort, i.e. it is stable for arrays of at most 16 entries and NOT
+    beyond that: longer arrays are refused unless a stable kind is requested (the real numpy sort decides those cases on
+    concrete flags)."""
+    a = _as_pa1(a)
+    a._need_dense('argsort')
+    n = a.data.shape[0]
+    if n > 16 and kind not in ('stable', 'mergesort'):
+        raise Unsupported('argsort of %d symbolic entries with numpy\'s default (unstable for more than 16 entries) sort' % n)
+    if a.kind == 'b':
+        lt = lambda x, y: b_and(b_not(x), y)
+        le = lambda x, y: b_or(b_not(x), y)
+    elif a.kind == 'i':
+        lt, le = i_lt, i_le
+    else:
+        raise Unsupported('argsort of a %s array' % a.kind)
+    ranks = []
+    for p in range(n):
+        ranks.append(count([(lt(a.data[q], a.data[p]) if q > p else le(a.data[q], a.data[p])) for q in range(n) if q != p]))
+    out = onp.empty((n,), dtype=object)
+    for r in range(n):
+        out[r] = select([(i_eq(ranks[p], r), p) for p in range(n)], 0, 'i')
+    return PA(out, 'i', None, max(n - 1, 0))
+
+
 def _truth(a):
     """list of (valid, nonzero) per entry of an array"""
     if not isinstance(a, PA):
@@ -1380,6 +1410,11 @@ class ONP:
             return onp.sort(a, axis=axis, **k)
         return _sort(a)
 
+    def argsort(self, a, axis=-1, kind=None, **k):
+        if not isinstance(a, PA):
+            return onp.argsort(a, axis=axis, kind=kind, **k)
+        return _argsort(a, kind)
+
     def any(self, a, axis=None):
         if not isinstance(a, PA):
             return onp.any(a, axis=axis)
@@ -1572,7 +1607,7 @@ class Cfg:
         self.name, self.coords, self.conns, self.dim = name, coords, conns, dim
         self.nN, self.nEl = len(coords), len(conns)
         self.ndof = self.nN * dim
-        self.nD = 3 * dim
+        self.nD = len(conns[0]) * dim          # dofs per element (3 nodes for the P1 meshes)
         # one independent node set per component (=> isBc is an arbitrary mask), an overlapping set on component 0, the set of
         # component 0 re-used on the last component, and the first BC repeated verbatim
         self.bcs = [('A%d' % c, c) for c in range(dim)]
